@@ -2,6 +2,7 @@ package isobmff
 
 import (
 	"github.com/evanoberholster/imagemeta/meta"
+	"github.com/evanoberholster/imagemeta/verifhook"
 	"github.com/pkg/errors"
 )
 
@@ -23,11 +24,13 @@ func (r *Reader) readPreview(b *box) (err error) {
 	}
 
 	if r.PreviewImageReader != nil {
+		verifhook.T("bmff", "cb>", 3, int64(inner.remain), int64(r.prvw.Size))
 		if err = r.PreviewImageReader(&inner, meta.PreviewHeader(r.prvw)); err != nil {
 			if logLevelError() {
 				logError().Object("box", inner).Err(err).Send()
 			}
 		}
+		verifhook.T("bmff", "cb<", 3, int64(inner.remain))
 	}
 
 	return inner.close()
@@ -50,6 +53,7 @@ func (r *Reader) createPRVWBox(b *box) (inner box, err error) {
 	inner.size = int64(bmffEndian.Uint32(buf[:4]))
 	inner.remain = int(inner.size)
 	inner.boxType = boxTypeFromBuf(buf[4:8])
+	verifhook.T("bmff", "open", int64(inner.offset), inner.size, 0, int64(inner.depth()), int64(inner.boxType))
 
 	return inner, nil
 }
